@@ -9,8 +9,10 @@ import (
 	"gopkg.in/typ.v4/sets"
 	"gopkg.in/typ.v4/sync2"
 	"verif/lib/ev"
+	"verif/lib/fp"
 	"verif/lib/lin"
 	"verif/lib/schk"
+	"verif/lib/seqmc"
 	"verif/vrt"
 )
 
@@ -58,16 +60,56 @@ func setOf(mask int) ordSet {
 	return s
 }
 
-var layouts = []struct {
+type layout struct {
 	name string
 	pre  []call
-}{
-	{"empty", nil},
-	{"a-read", []call{{"Add", 0}, {"Has", 0}}},
-	{"a-dirty", []call{{"Add", 0}}},
-	{"a-deleted", []call{{"Add", 0}, {"Has", 0}, {"Remove", 0}}},
-	{"a-expunged", []call{{"Add", 0}, {"Has", 0}, {"Remove", 0}, {"Add", 1}}},
-	{"ab-read", []call{{"Add", 0}, {"Add", 1}, {"Len", 0}}},
+}
+
+// seth is the sequential harness used to enumerate every concrete layout of a 2-value set.
+type seth struct {
+	s *sync2.Set[int]
+	m [lin.Keys]bool
+}
+
+func (x *seth) Ops() []seqmc.Op {
+	var ops []seqmc.Op
+	for v := 0; v < lin.Keys; v++ {
+		ops = append(ops, seqmc.Op{Name: "Add", A: v}, seqmc.Op{Name: "Remove", A: v}, seqmc.Op{Name: "Has", A: v})
+	}
+	return append(ops, seqmc.Op{Name: "Has", A: lin.Keys}, seqmc.Op{Name: "Len"})
+}
+func (x *seth) Apply(op seqmc.Op) *seqmc.Fail {
+	switch op.Name {
+	case "Add":
+		x.s.Add(op.A)
+		x.m[op.A] = true
+	case "Remove":
+		x.s.Remove(op.A)
+		x.m[op.A] = false
+	case "Has":
+		x.s.Has(op.A)
+	case "Len":
+		x.s.Len()
+	}
+	return nil
+}
+func (x *seth) Key() string          { return fmt.Sprint(fp.Of(x.s), x.m) }
+func (x *seth) Observe() *seqmc.Fail { return nil }
+
+// allLayouts: every concrete layout (read map, dirty map, amended, misses, nil/expunged/live
+// entries) a set over two values can reach, with the shortest call sequence reaching it.
+func allLayouts(r *ev.Run) []layout {
+	var out []layout
+	seqmc.Explore(r, seqmc.Config{Name: "layouts", Workers: 1, New: func() seqmc.Sys { return &seth{s: new(sync2.Set[int])} },
+		OnState: func(path []seqmc.Op) {
+			l := layout{name: fmt.Sprint("L", len(out), ":")}
+			for _, o := range path {
+				l.pre = append(l.pre, call{o.Name, o.A})
+				l.name += fmt.Sprintf("%s%d.", o.Name[:1], o.A)
+			}
+			out = append(out, l)
+		}})
+	return out
 }
 
 type rec struct {
@@ -121,8 +163,7 @@ func (r *rec) do(th int, c call) {
 	_ = base
 }
 
-func scenario(li int, prog [][]call, bound, raceBound int) schk.Scenario {
-	lay := layouts[li]
+func scenario(lay layout, prog [][]call, bound, raceBound int) schk.Scenario {
 	name := lay.name + "|"
 	for i, p := range prog {
 		if i > 0 {
@@ -233,12 +274,18 @@ func main() {
 	full := []call{{"Add", 0}, {"Add", 1}, {"Remove", 0}, {"Remove", 1}, {"Has", 0}, {"Has", 1}, {"AddSet", 3}, {"RemoveSet", 3}, {"AddSet", 1}, {"Len", 0}}
 	small := []call{{"Add", 0}, {"Remove", 0}, {"Has", 0}, {"Add", 1}, {"Len", 0}, {"RemoveSet", 3}}
 	var scs []schk.Scenario
-	for li := range layouts {
+	layouts := allLayouts(r)
+	r.Set("start_layouts", len(layouts))
+	for n, li := range layouts {
+		big := n%ev.Pick(r, 6, 2) == 0 // the larger programs start from a spread-out subset of the layouts
 		// 2 threads x 1 call: all pairs, all interleavings
 		for i, a := range full {
 			for _, b := range full[i:] {
 				scs = append(scs, scenario(li, [][]call{{a}, {b}}, -1, ev.Pick(r, 2, 3)))
 			}
+		}
+		if !big {
+			continue
 		}
 		// 3 threads x 1 call
 		for i, a := range small {
@@ -256,7 +303,7 @@ func main() {
 						if fmt.Sprint(a1, a2) > fmt.Sprint(b1, b2) {
 							continue
 						}
-						if !r.Thorough() && (li%2 == 1 || a1 == a2 || b1 == b2 || a1.v+a2.v+b1.v+b2.v > 3) {
+						if !r.Thorough() && (a1 == a2 || b1 == b2 || a1.v+a2.v+b1.v+b2.v > 3) {
 							continue
 						}
 						scs = append(scs, scenario(li, [][]call{{a1, a2}, {b1, b2}}, ev.Pick(r, 2, 3), -2))
@@ -282,7 +329,7 @@ func main() {
 		return map[string]int64{"distinct_histories_judged_by_porcupine": int64(lin.Distinct())}
 	}
 	schk.Main(r, scs, ev.Pick(r, 45*time.Second, 1200*time.Second), func(r *ev.Run) {
-		r.Set("rule", "controlled scheduler over the instrumented sync2 package; programs of Add/Remove/Has/AddSet/RemoveSet/Len over values {a,b} from 6 start layouts (empty, live in read map, live in dirty map, deleted, expunged, both promoted): every pair of single calls under ALL interleavings, multisets of three single calls, pairs of two-call programs (and four single calls) under a preemption bound; oracle: porcupine set model with AddSet/RemoveSet/Len decomposed into per-element pseudo-operations inside the call's interval whose successes must add up to the returned count, final Has/Len/Slice after quiescence, and the derived accounting #successful Adds - #successful Removes = final - initial membership; pair scenarios also under the race detector inside every explored schedule")
+		r.Set("rule", "controlled scheduler over the instrumented sync2 package; programs of Add/Remove/Has/AddSet/RemoveSet/Len over values {a,b} from EVERY reachable concrete layout of a 2-value set (computed by explicit-state search; a spread-out subset for the larger programs): every pair of single calls under ALL interleavings, multisets of three single calls, pairs of two-call programs (and four single calls) under a preemption bound; oracle: porcupine set model with AddSet/RemoveSet/Len decomposed into per-element pseudo-operations inside the call's interval whose successes must add up to the returned count, final Has/Len/Slice after quiescence, and the derived accounting #successful Adds - #successful Removes = final - initial membership; pair scenarios also under the race detector inside every explored schedule")
 		r.Assume("more than 4 goroutines are outside the bound")
 	})
 }
